@@ -38,6 +38,9 @@ ASSUMPTIONS = [
     "user messages of generic_message are byte strings below 60000 bytes that do not address the connection manager (Forward Open/Close by hand)",
     "LogixDriver is opened with init_tags=False (the tag upload is abstracted to connected requests)",
     "urandom draws are inputs; logging is not modelled",
+    "Props/C10.v: C10_holds = all five clauses for every fault schedule (since fix f3bd898 a failed send/receive abandons the transport; "
+    "before it the late-reply schedules — recv / send_after faults — refuted no_connected_before_fo and fo_order: corpus/C10 witnesses 1-3)",
+    "real read()/write() of uploaded tags run against bin/modelrun_target with the oracle only (the model co-process embeds the core handler; the theorems hold for any handler)",
 ]
 
 IP = "192.168.1.10"
@@ -602,7 +605,7 @@ def run_case(R, tp, mp, case, label, check=True):
 
 
 # ------------------------------------------------------------------ real tags: LogixDriver against the Logix target
-def run_real_case(R, tp, rng, seed):
+def run_real_case(R, tp, seed):
     """LogixDriver(init_tags=True) with real read()/write() of real tags against the WHOLE reference target
     (bin/modelrun_target: core + Logix handler, a generated controller project).  The model co-process
     embeds the core handler only, so this stage has no model side: it evaluates the oracle on the
@@ -611,6 +614,8 @@ def run_real_case(R, tp, rng, seed):
     import refview as RV
     import pycomm3.cip_driver as cd
     from pycomm3 import LogixDriver
+    import random
+    rng = random.Random(seed * 7919 + 13)          # the whole case is a function of its seed (replayable)
     sc = S.gen_scenario(rng, n_tags=rng.randrange(3, 12))
     policy = rng.choice(list(POLICIES))
     cfg = dict(POLICIES[policy])
@@ -799,7 +804,7 @@ def run(R, escalate=False):
     rng = R.rng
     R.rule = ("call histories over {open, close, generic_message connected (echo / error reply) and unconnected, with-block with and without "
               "exception, read (LogixDriver) / unconnected with route (CIPDriver)} x {CIPDriver, LogixDriver(init_tags=False)} x policies {large FO ok, "
-              "large refused, all FO refused, session refused}: all histories up to length 3 (thorough: 4; LogixDriver at length 4: one policy drawn per history) without fault, single faults at "
+              "large refused, all FO refused, session refused}: all histories up to length 3 (thorough: 4, one policy drawn per length-4 history) without fault, single faults at "
               "every socket call position of sampled (thorough: all length<=3, sampled length 4) histories, random longer histories over a wider "
               "alphabet with 0-2 faults, error injections, routes, expected-route refusals; non-trivial = distinct case in which at least one frame reached the target")
     tp = T.TargetProc("targetcore")
@@ -815,7 +820,7 @@ def run(R, escalate=False):
             alpha = alphabet(logix)
             for n in range(1, maxlen + 1):
                 for hist in itertools.product(alpha, repeat=n):
-                    pols = list(POLICIES) if (n <= 3 or not logix) else [rng.choice(list(POLICIES))]
+                    pols = list(POLICIES) if n <= 3 else [rng.choice(list(POLICIES))]
                     for pol in pols:
                         seed += 1
                         case = mk_case(logix, pol, hist, seed=seed)
@@ -829,7 +834,7 @@ def run(R, escalate=False):
             chosen = base_runs
         else:
             short = [b for b in base_runs if len(b[0]["ops"]) <= 2]
-            chosen = rng.sample(short, min(len(short), 250)) + rng.sample(base_runs, 450)
+            chosen = rng.sample(short, min(len(short), 200)) + rng.sample(base_runs, 300)
         for case, (nc, ns, nr, ncl) in chosen:
             every = thorough and len(case["ops"]) <= 3
             for flt in single_faults(nc, ns, nr, ncl, rng, every):
@@ -839,7 +844,7 @@ def run(R, escalate=False):
                 R.count("source", "single-fault")
         # random longer histories, wider alphabet, 0-2 faults, injections, routes
         paths = [IP, IP + "/bp/2", IP + "/bp/1/enet/10.0.0.5/bp/0", IP + "/1/2/2/3"]
-        for _ in range(3000 if thorough else 500):
+        for _ in range(3000 if thorough else 400):
             seed += 1
             logix = rng.random() < 0.5
             ops = [rng.choice(more_ops(logix, rng)) for _ in range(rng.randrange(2, 9))]
@@ -875,9 +880,9 @@ def run(R, escalate=False):
             tpl = None
             try:
                 tpl = T.TargetProc("target")
-                for _ in range(4000 if thorough else 400):
+                for _ in range(1500 if thorough else 300):
                     seed += 1
-                    run_real_case(R, tpl, rng, seed)
+                    run_real_case(R, tpl, seed)
             except T.TargetError as e:          # the Logix half is another vertical's work in progress
                 R.notes.append(f"real-tags stage stopped: {e!r}"[:300])
             finally:
@@ -897,7 +902,13 @@ def replay(R, rp):
     tp = T.TargetProc("targetcore")
     mp = fw.ModelProc("C10")
     try:
-        if case:
+        if case and case.get("real_tags"):
+            tpl = T.TargetProc("target")
+            try:
+                run_real_case(R, tpl, int(case["scenario_seed"]))
+            finally:
+                tpl.close()
+        elif case:
             run_case(R, tp, mp, case_from_json(_unjson(case)), "replay")
         else:
             run(R, escalate=True)
